@@ -200,12 +200,42 @@ def r_arguments_unchanged(r, prog):
 def r_plugin_parser_preconditions(r, prog):
     guards.evaluate(r, prog, rule_scopes.guards_plugin_parser, 'guards_plugin_parser.json', 15)
 
+def r_arguments_always_sent(r, prog):
+    """Every generator that is started is sent the request and then its arguments dictionary - also when it has no arguments (an empty
+    dictionary is one byte): a successful return of spawn_plugin_process has passed both writes, in that order, and the second write is the
+    encoded Arguments(plugin.args)."""
+    sp = prog.fn('slicec_bin::spawn_plugin_process')
+    ws = [c for c in sp.calls() if c.name() == 'write_all' and not sp.blocks[c.bb].get('cleanup')]
+    enc = [c for c in sp.calls() if c.name() == 'encode' and not sp.blocks[c.bb].get('cleanup') and 'Arguments' in vexpr(sp, c.args[1])]
+    oks = [a['bb'] for a in aggregates(prog, 'core::result::Result', 'Ok') if a['fn'] is sp and not sp.blocks[a['bb']].get('cleanup') and a['lhs']['l'] == 0]
+    if len(ws) < 2 or not enc or not oks:
+        r.finding('arguments-not-sent', sp.span, 'spawn_plugin_process has %d write(s) to the generator and %d Arguments encoding(s)' % (len(ws), len(enc)))
+        r.floor(1)
+        return
+    req = [c for c in ws if vexpr(sp, c.args[1]) == 'arg2']
+    arg = [c for c in ws if c not in req]
+    probs = []
+    if len(req) != 1 or len(arg) != 1:
+        probs.append('%d write(s) of the request and %d other write(s)' % (len(req), len(arg)))
+    else:
+        if not all(must_pass(sp, 0, [b], [req[0].bb]) and must_pass(sp, 0, [b], [arg[0].bb]) and must_pass(sp, 0, [b], [enc[0].bb]) for b in oks):
+            probs.append('a successful return does not pass the request write, the encoding of the arguments and the arguments write on every path (the arguments are skipped under some condition)')
+        if not (sp.dominates(req[0].bb, arg[0].bb) and sp.dominates(enc[0].bb, arg[0].bb)):
+            probs.append('the arguments are not written after the request / after being encoded')
+    if probs:
+        r.finding('arguments-not-always-sent', sp.span, '; '.join(probs))
+    else:
+        r.ok('request, then the encoded arguments dictionary, are written on every path that returns the started generator')
+    r.floor(1)
+
+
 def run(ctx):
     prog = ctx.prog
     ctx.run_rule('C19.1', 'T7', 'no undischarged panic site in plugin_parser', r_no_crash, prog)
     ctx.run_rule('C19.2', 'T1', 'rejections are Err(&str) of the installed clap value parser', r_rejections_are_usage_errors, prog)
     ctx.run_rule('C19.3', 'T9', 'the character loop consumes on every iteration', r_loop_progress, prog)
     ctx.run_rule('C19.4', 'T6', 'syntax tables: dispatch set, escape set, trimming and validation of trimmed values', r_syntax_tables, prog)
+    ctx.run_rule('C19.8', 'T2', 'every started generator is sent its arguments dictionary after the request, also when it is empty', r_arguments_always_sent, prog)
     ctx.run_rule('C19.5', 'T1', 'arguments reach the generator unchanged and in order', r_arguments_unchanged, prog)
     ctx.run_rule('C19.6', 'T13', 'conditions under which plugin_parser opens a pair, switches state, trims, rejects and returns (precondition ledger)', r_plugin_parser_preconditions, prog)
     ctx.run_rule('C19.7', 'T6', 'rejection reasons, argument opening and no removal (decision table of plugin_parser)', decisions.r_plugin_parser_decisions, prog)
